@@ -67,6 +67,7 @@ class ServerWorld:
         self.d = Draws(sc.get("lat_seed", 0))
         self.paths = []  # paths handed to RailsConfig.from_path
         self.gen_calls = []  # (tag, messages) handed to generate_async
+        self.resent = {}  # request index -> the stored thread the client resent in front of its new messages
 
     def store_latency(self, op, n):
         return self.d.choice(SHORT_GRID, "store", op, n)
@@ -114,7 +115,7 @@ class C20(Prop):
                  "embedding model", "event loop clock (SimLoop)"],
     }
     assumptions = ["the root itself counts as inside the root (config_id '.' resolves to it); confinement is judged on os.path.realpath", "store errors are outside the property's quantifier (not injected)"]
-    expected_probes = ["answering_config_identified", "hostile_id_rejected", "valid_id_loaded", "thread_second_request", "thread_request_with_returned_state", "streamed_reply", "concurrent_threads", "combined_config_ids", "empty_config_id"]
+    expected_probes = ["answering_config_identified", "hostile_id_rejected", "valid_id_loaded", "thread_second_request", "thread_request_with_returned_state", "client_resent_the_stored_thread", "streamed_reply", "concurrent_threads", "combined_config_ids", "empty_config_id"]
     ddmin_paths = [("requests",)]
     quick_runs = 400
     thorough_runs = 30000
@@ -155,6 +156,10 @@ class C20(Prop):
                 r.pop("config_ids", None)
                 r["config_id"] = "cfgS"
                 r["stream"] = True
+            if "thread_id" in r and d.chance(0.12, "resend", i):
+                # a client that resends the whole conversation as it knows it (the stored thread) in front of its new message: the
+                # messages used are still the stored thread followed by ALL the messages of the request
+                r["resend"] = True
             if d.chance(0.3, "state", i):
                 # an explicit state object next to the thread id: the state the server returned for this thread before
                 # ("prev"), or an empty one - the thread is used and updated all the same
@@ -229,7 +234,13 @@ class C20(Prop):
             async def one(i, r):
                 tok = llm_peer.conv_var.set("r%d" % i)
                 try:
-                    body = {"messages": [dict(m) for m in r.get("extra", [])] + [{"role": "user", "content": r["text"]}]}
+                    resent = []
+                    if r.get("resend") and r.get("thread_id"):
+                        resent = json.loads(store.data.get("thread-" + r["thread_id"]) or "[]")
+                        if resent:
+                            out.probe("client_resent_the_stored_thread")
+                    world.resent[i] = resent
+                    body = {"messages": [dict(m) for m in resent] + [dict(m) for m in r.get("extra", [])] + [{"role": "user", "content": r["text"]}]}
                     for k in ("config_id", "config_ids", "thread_id", "context"):
                         if k in r:
                             body[k] = expand(copy.deepcopy(r[k])) if k.startswith("config") else copy.deepcopy(r[k])
@@ -380,7 +391,7 @@ class C20(Prop):
                 else:
                     out.probe("answering_config_identified")
             # ---- oracle (b): threads ---------------------------------------------------------------
-            new_msgs = ([{"role": "context", "content": r["context"]}] if "context" in r else []) + [dict(m) for m in r.get("extra", [])] + [{"role": "user", "content": r["text"]}]
+            new_msgs = ([{"role": "context", "content": r["context"]}] if "context" in r else []) + [dict(m) for m in world.resent.get(i, [])] + [dict(m) for m in r.get("extra", [])] + [{"role": "user", "content": r["text"]}]
             calls = [m for (tag, m) in world.gen_calls if tag == "r%d" % i]
             tid = r.get("thread_id")
             if tid:
